@@ -54,6 +54,11 @@ def sig_scenario(i, sig, option, phase, pty):
         label = "exec:0"
     elif phase == "after-exec":
         script += [P.DO("send", msg=P.B("exec", cb=True)), P.DO("sleep", us=40000), P.W("idle")]
+    if phase == "nested-release":
+        # the application releases the terminal itself, an Exec happens meanwhile, the application restores it:
+        # afterwards signals count again
+        script += [P.DO("release-terminal"), P.DO("sleep", us=10000), P.DO("send", msg=P.B("exec", cb=True)), P.DO("sleep", us=60000),
+                   P.DO("restore-terminal"), P.DO("sleep", us=30000), P.W("idle")]
     if phase == "swallowed-then-again":
         o["filter"] = {"drop_first": {"b:interrupt": 1, "b:quit": 1}}
     again = phase in ("released-then-idle", "swallowed-then-again")
@@ -90,6 +95,12 @@ def size_scenario(i, sizes, mode, rnd):
         upd["u:1"] = {"pause": True}
         script += [P.DO("go-send", msg=P.U(1)), P.W("pause:update:u:1")]
         label = "update:u:1"
+    elif mode == "busy-query":
+        # a size query (WindowSize command) is in flight, its answer cannot be delivered because Update is busy;
+        # the terminal is resized meanwhile
+        upd["b:windowsize"] = {"pause": True}
+        script += [P.DO("go-send", msg=P.B("windowsize")), P.W("pause:update:b:windowsize"), P.DO("sleep", us=20000)]
+        label = "update:b:windowsize"
     elif mode == "released":
         script += [P.DO("go-send", msg=P.B("exec", pause=True)), P.W("pause:exec:0")]
         label = "exec:0"
@@ -116,7 +127,7 @@ def gen(tier, rnd):
         x[0]["id"] = len(scs)
         scs.append(x[0])
         metas.append(x[1])
-    phases = ["idle", "update", "released", "after-exec", "released-then-idle", "swallowed-then-again"]
+    phases = ["idle", "update", "released", "after-exec", "released-then-idle", "swallowed-then-again", "nested-release"]
     for sig in ("int", "term"):
         for option in ("handler", "nosighandler", "nosignals"):
             for phase in phases:
@@ -125,8 +136,8 @@ def gen(tier, rnd):
                 add(sig_scenario(0, sig, option, phase, pty=(phase in ("idle", "after-exec", "released-then-idle"))))
     reps = 2 if tier == "quick" else 12
     for _ in range(reps):
-        for mode in ("idle", "busy", "released", "command"):
-            n = rnd.choice([1, 2, 3]) if mode != "busy" else rnd.choice([2, 3])
+        for mode in ("idle", "busy", "busy-query", "released", "command"):
+            n = rnd.choice([1, 2, 3]) if mode not in ("busy", "busy-query") else rnd.choice([1, 2, 3])
             sizes = [(rnd.randint(20, 120), rnd.randint(5, 40))]
             while len(sizes) < n + 1:
                 s = (rnd.randint(20, 120), rnd.randint(5, 40))
@@ -240,8 +251,8 @@ def run(res, tier, seed):
     res.coverage["input_distribution"] = {
         "signal_runs": nsig, "size_runs": len(metas) - nsig,
         "signal_options": {o: sum(1 for m in metas if m.get("option") == o) for o in ("handler", "nosighandler", "nosignals")},
-        "signal_phases": {p: sum(1 for m in metas if m.get("phase") == p) for p in ("idle", "update", "released", "after-exec", "released-then-idle", "swallowed-then-again")},
-        "size_modes": {p: sum(1 for m in metas if m.get("mode") == p) for p in ("idle", "busy", "released", "command")},
+        "signal_phases": {p: sum(1 for m in metas if m.get("phase") == p) for p in ("idle", "update", "released", "after-exec", "released-then-idle", "swallowed-then-again", "nested-release")},
+        "size_modes": {p: sum(1 for m in metas if m.get("mode") == p) for p in ("idle", "busy", "busy-query", "released", "command")},
         "resizes": sum(len(m["sizes"]) - 1 for m in metas if m["kind"] == "size"),
     }
     res.coverage["traces_validated_against_impl"] = len(metas)
